@@ -306,6 +306,7 @@ class NlpCheck(Check):
     whole = False           # demand equality of the full atom multiset
     want_f = False
     R_quick, R_thorough = 2, 4
+    extra_phys = False
 
     def case_features(self, desc, problem_kind, detail):
         m = desc['method']
@@ -333,7 +334,7 @@ class NlpCheck(Check):
 
     def run_case(self, desc, R, points=None):
         try:
-            res = En.compare_case(desc, self.driver, self.rng, R=R, points=points)
+            res = En.compare_case(desc, self.driver, self.rng, R=R, points=points, extra_phys=self.extra_phys)
         except ZeroDivisionError:
             return None
         except Exception as e:
